@@ -58,7 +58,9 @@ def drive(strategy, evaluate, n_examples: int, seed_parts, res: ShardResult, shr
                 o = evaluate(case)
             except _Timeout as e:  # budget hit: inconclusive, never a verdict
                 o = Outcome(status="timeout-inconclusive", what=str(e))
-            except Exception:  # harness bug: never a verdict
+            except (KeyboardInterrupt, SystemExit, GeneratorExit):
+                raise
+            except BaseException:  # harness bug (UFL's own errors derive from BaseException): never a verdict, never a lost shard
                 res.harness_errors.append("evaluate() raised:\n" + traceback.format_exc()[-3000:] + "\ncase: " + canon(case)[:1500])
                 o = Outcome(status="harness-error")
             cache[h] = o
